@@ -393,7 +393,7 @@ func buildRt(s shape, rnd *rand.Rand) (spdy.Frame, expect) {
 	var ex expect
 	ex.Kind = s.K
 	ex.Flags = uint8(s.Fl)
-	_, sid := sidOf(s.Sid, rnd)
+	wsid, sid := sidOf(s.Sid, rnd)
 	ex.StreamID = sid
 	hdr := func() http.Header {
 		ex.Pairs = concretePairs(s, rnd)
@@ -422,8 +422,11 @@ func buildRt(s shape, rnd *rand.Rand) (spdy.Frame, expect) {
 		return f, ex
 	case "rst":
 		ex.Status = 5
+		if s.Aux == "zero" {
+			ex.Status = 0
+		}
 		ex.Flags = 0
-		return &spdy.RstStreamFrame{StreamId: spdy.StreamId(sid), Status: spdy.Cancel}, ex
+		return &spdy.RstStreamFrame{StreamId: spdy.StreamId(sid), Status: spdy.RstStreamStatus(ex.Status)}, ex
 	case "ping":
 		ex.PingID = sid
 		ex.Flags = 0
@@ -459,7 +462,8 @@ func buildRt(s shape, rnd *rand.Rand) (spdy.Frame, expect) {
 		}
 		d, sum := dataBytes(n, rnd)
 		ex.DataLen, ex.DataSum = n, sum
-		return &spdy.DataFrame{StreamId: spdy.StreamId(sid), Flags: spdy.DataFlags(s.Fl), Data: d}, ex
+		// sid "hi": the struct carries the control bit (the writer must refuse it)
+		return &spdy.DataFrame{StreamId: spdy.StreamId(wsid), Flags: spdy.DataFlags(s.Fl), Data: d}, ex
 	}
 	panic("buildRt: kind " + s.K)
 }
@@ -677,6 +681,26 @@ func runFrameCase(c frameCase) vh.Result {
 				fail("write-panic", it, p)
 				o.Out = "panic"
 				obs = append(obs, o)
+				break
+			}
+			if it.P == "refused" {
+				// Layer P: the writer refuses and leaves no trace.  Nothing may have reached the wire;
+				// what it left in the shared compression context shows on the frames that follow.
+				switch {
+				case werr == nil:
+					drift = append(drift, shapeKey(s)+": writer accepted a frame struct the model refuses")
+					o.Out = "ok"
+				case wire.Len() != before:
+					o.Out, o.Err = "refused", werr.Error()
+					fail("refused-wrote", it, fmt.Sprintf("WriteFrame returned %q after putting %d octets on the wire (% x)",
+						werr.Error(), wire.Len()-before, wire.Bytes()[before:]))
+				default:
+					o.Out, o.Err = "refused", werr.Error()
+				}
+				obs = append(obs, o)
+				if o.Out == "refused" && res.OK {
+					continue // the connection goes on as if nothing had happened
+				}
 				break
 			}
 			if werr != nil {
